@@ -45,7 +45,8 @@ def c15(tier):
         "evaluations": evals, "distinct_nontrivial": nontriv,
         "rule": "every operator form declared in rational.h / inf_rational.h / lin.h (%d forms) applied to every pair of "
                 "operands of the grid n in [-%d,%d], d in [-%d,%d]\\{0} plus +-inf (one representative per value; all ctor "
-                "spellings in the ctor form), a sub-grid of (rational, eps) pairs, and 375 linear expressions over x0..x2; "
+                "spellings in the ctor form), a sub-grid of (rational, eps) pairs, and 375 linear expressions over x0..x2 "
+                "(compound lin forms also with the same object on both sides); "
                 "a case is (form, operands); non-trivial = the operation is defined (not inf-inf, 0*inf, x/0, inf/inf); "
                 "cases are distinct by construction; distinct_nontrivial counts one build configuration" % (forms, N, N, D, D),
         "samples": samples, "exhaustive": exhaustive, "configurations": per_cfg, "operator_forms": forms,
@@ -127,6 +128,8 @@ NETMC_RULES = {
            "copy of the network and all arithmetic bounds, distances and object domains must coincide; plus the C07 entailment oracle "
            "(so that at root level only root consequences remain).",
     "C09": "networks: ALL 3-subsets of the atom pool {x,y,x+y,x-y (thorough: 2x-y,x+2y)} x {<=,<,>=,>} x {0,1 (thorough: -1,1/2)}; "
+           "plus (explored first) ALL 3-subsets of {x,y,x+y,x-y} x {<=,>=} x {1/2,3/2}, fan-out networks (1 boolean + 4 atoms, two binary "
+           "clauses with one trigger literal) and ALL 4-subsets ('boxes') of {x,y,x-y} x {<=,>=} x {0,1} at the same depth; "
            "histories: ALL sequences of assume(+-atom), pop, next up to the depth. Oracle: Fourier-Motzkin on the asserted atoms "
            "(negation = complementary strict/non-strict relation): a standing set is feasible; reported values satisfy every asserted "
            "constraint in (rational,eps) arithmetic; every tableau row holds on the values; lb<=value<=ub; bounds contain the exact "
@@ -135,13 +138,17 @@ NETMC_RULES = {
            "included) with d in {-1,0,1} (thorough: -2..2 and half-integers for RDL) that touch <=3 points, plus 'relaxation' networks (two bounds on a direct "
            "edge, a two-hop path whose length lies between them, a reverse edge and an atom it decides, with EVERY single binary "
            "clause over the six atoms, explored with decisions on positive literals + pop to depth 5 (thorough 6), so that several "
-           "constraints enter and leave one decision level together); histories: ALL sequences "
+           "constraints enter and leave one decision level together), 4-point chains with a shortcut atom for every ordering of the points, "
+           "fan-out networks, and for RDL ALL 3-subsets with a strict bound (d or d-eps); the special families are explored before "
+           "the big pool, so that a deadline cuts inside the pool; histories: ALL sequences "
            "of assume(+-atom), pop, next up to the depth. Oracle: Floyd-Warshall closure of the asserted literals (false literal = "
            "reverse edge -d-1 resp. -d-eps): no standing negative cycle; every matrix entry equals the closure exactly; every "
            "undecided atom decided by the closure has been propagated; every conflict/lemma negates to a negative cycle; nothing "
            "else is inferred (C07 oracle).",
     "C14": "value universe of 3 (thorough: 4) values; two variables with EVERY pair of non-empty domains, equality requested once or "
-           "twice (both argument orders); histories: ALL sequences of assume/pop/next/propagate over value and equality literals up to "
+           "twice (both argument orders); chains of 3-5 variables with equalities requested while later variables do not exist yet; lazy "
+           "variables (no exactly-one clause); variables derived from another one's value literals (new_var(lits, vals)), also created "
+           "in the middle of a history by the step late(v) (below a decision, after a pop, at root); histories: ALL sequences of assume/pop/next/propagate over value and equality literals up to "
            "the depth. Oracle: truth table of the database after construction (exactly one value per variable in every model, every "
            "allowed value possible, equality literal <=> same value); along histories value(v) = values whose literal is not false, "
            "and the C07 entailment oracle.",
@@ -197,7 +204,9 @@ def relmc_check(pid, tier):
         "C12": "for idl_theory and rdl_theory, both creation orders of the two points, network states {empty, x-y<=1, x in [0,3], all + y in "
                "[1,2]}: every request l REL r with l,r in {k, c*x+k, c*y+k, c*(x-y)+k}, c in {1,-1,2,-2,1/2 (thorough 3,-1/2)}, k in "
                "{0,1,-2 (thorough 1/2)}: for EVERY grid point (7x7 integers resp. 8x8 with half-integers) in the state both points are "
-               "pinned by unit distance constraints and the literal must be satisfiable exactly when the relation holds; and for every "
+               "pinned by unit distance constraints and the literal must be satisfiable exactly when the relation holds, and in the other "
+               "order - the literal asserted first with the truth value the point demands, the point pinned afterwards - the pinning "
+               "must succeed; and for every "
                "pair (l,r) in every state bounds(l), distance(l,r), equates(l,r) are compared with the intervals derived from the "
                "variable-level bounds()/distance() of the same state. distinct_nontrivial = distinct (theory,relation,shape,state,"
                "outcome) classes for literal cases + distinct query cases",
